@@ -1006,6 +1006,16 @@ func (pc *PkgContracts) emitClause(c *Contract, cl *Clause, extra []Binder) {
 
 func (pc *PkgContracts) generate() {
 	for _, c := range pc.Contracts {
+		if c.Kind == "assume" && c.Recv == nil {
+			// atomic.AddInt32 -> sync/atomic.AddInt32 with the import path of the alias
+			if i := strings.Index(c.Target, "."); i > 0 && !strings.Contains(c.Target, "/") {
+				for _, imp := range pc.Imports {
+					if strings.HasSuffix(imp, "/"+c.Target[:i]) {
+						c.Target = imp + c.Target[i:]
+					}
+				}
+			}
+		}
 		if c.Kind == "assume" && c.Recv != nil && strings.HasPrefix(c.Target, "(") {
 			// (*regexp.Regexp).M  ->  regexp.(*Regexp).M with the import path of the alias
 			m := regexp.MustCompile(`^\((\*?)([A-Za-z_0-9]+)\.([A-Za-z_0-9]+)\)\.(.*)$`).FindStringSubmatch(c.Target)
